@@ -38,6 +38,9 @@ type hst struct {
 	blocks []coin.SignedBlock      // blocks executed by the node under test
 	allH   []cipher.SHA256
 	nontr  int
+	hot    *coin.UxOut                // output with hours just below 2^64 (hot histories)
+	hold   map[cipher.SHA256]bool     // pooled transactions never handed to the publisher
+	pubOut bool                       // the publisher no longer follows the node's chain
 }
 
 func (h *hst) close() {
@@ -46,12 +49,17 @@ func (h *hst) close() {
 	h.w.Cleanup()
 }
 
-func newHistory(r *Rng, nOut int, hist Hist) (*hst, error) {
+func newHistory(r *Rng, nOut int, hist Hist, hot bool) (*hst, error) {
 	w, err := nk.NewWorld(r, "c06")
 	if err != nil {
 		return nil, err
 	}
-	h := &hst{w: w, r: r, hist: hist}
+	h := &hst{w: w, r: r, hist: hist, hold: map[cipher.SHA256]bool{}}
+	if hot {
+		// genesis hours just below 2^64, so that one output can carry hours so close to
+		// 2^64 that its coin hours overflow a few seconds after its creation
+		w.Volume = ^uint64(0) - uint64(r.Intn(1000))
+	}
 	if h.pub, err = w.NewNode("pub", true, cipher.Sig{}); err != nil {
 		return nil, err
 	}
@@ -89,12 +97,31 @@ func newHistory(r *Rng, nOut int, hist Hist) (*hst, error) {
 		outs = append(outs, coin.TransactionOutput{Address: addr, Coins: coins, Hours: hours})
 		left -= coins
 	}
-	outs = append(outs, coin.TransactionOutput{Address: w.Addrs[0], Coins: left, Hours: 1000})
-	t := w.BuildTxn([]cipher.SHA256{gen.Hash()}, w.Uniq(outs), nk.TxOpts{})
-	if _, _, err := h.pub.V.InjectForeignTransaction(t); err != nil {
-		return nil, fmt.Errorf("split inject: %v", err)
+	const hotCoins = 3600000000000000 // 3.6e9 coins: earns 1e6 hours per second
+	if hot {
+		left -= hotCoins
 	}
-	sb, err := h.pub.V.VerifCreateBlock(nk.GenesisTime + 10)
+	outs = append(outs, coin.TransactionOutput{Address: w.Addrs[0], Coins: left, Hours: 1000})
+	outs = w.Uniq(outs)
+	if hot {
+		var sum uint64
+		for _, o := range outs {
+			sum += o.Hours
+		}
+		// all the remaining genesis hours: out hours = in hours, no burn => only the block
+		// rules accept this transaction, the block is made by hand
+		outs = append(outs, coin.TransactionOutput{Address: w.Addrs[1], Coins: hotCoins, Hours: w.Volume - sum - uint64(r.Intn(50))})
+	}
+	t := w.BuildTxn([]cipher.SHA256{gen.Hash()}, outs, nk.TxOpts{})
+	var sb coin.SignedBlock
+	if hot {
+		sb, err = w.MakeBlock(h.pub, coin.Transactions{t}, nk.GenesisTime+10)
+	} else {
+		if _, _, err := h.pub.V.InjectForeignTransaction(t); err != nil {
+			return nil, fmt.Errorf("split inject: %v", err)
+		}
+		sb, err = h.pub.V.VerifCreateBlock(nk.GenesisTime + 10)
+	}
 	if err != nil {
 		return nil, fmt.Errorf("split block: %v", err)
 	}
@@ -105,6 +132,11 @@ func newHistory(r *Rng, nOut int, hist Hist) (*hst, error) {
 		return nil, err
 	}
 	w.RecordBlock(sb)
+	if hot {
+		uxs := coin.CreateUnspents(sb.Head, t)
+		ux := uxs[len(uxs)-1]
+		h.hot = &ux
+	}
 	return h, nil
 }
 
@@ -123,8 +155,8 @@ func (h *hst) txnCoq(t coin.Transaction) string {
 	return fmt.Sprintf("(mkT %s %s %s)", nk.HashZ(t.Hash()), List(ins), List(outs))
 }
 
-func verdictCoq(wf, soft, unspent bool) string {
-	return fmt.Sprintf("(mkV %s %s %s)", B(wf), B(soft), B(unspent))
+func verdictCoq(v nk.Verdict) string {
+	return fmt.Sprintf("(mkV %s %s %s %s)", B(v.Hard), B(v.Block), B(v.Soft), B(v.InputsUnspent))
 }
 
 func (h *hst) poolObs() (string, []string, error) {
@@ -233,8 +265,24 @@ func (h *hst) genTxn() (coin.Transaction, string, bool) {
 	}
 	pool := h.poolTxns()
 	switch p := r.Intn(100); {
-	case p < 26:
+	case p < 23:
 		return mk("valid", nk.SpendOpts{})
+	case p < 26: // output hours 2^63 and 2^63+k: the sum wraps to k. Hard-invalid for a single
+		// transaction ("output hours overflow"), tolerated inside a block
+		ins, ok := fresh(1)
+		if !ok || ins[0].Body.Coins < 2000 {
+			return mk("valid", nk.SpendOpts{})
+		}
+		k := nk.HoursAt(ins[0], ht)
+		if k > 3 {
+			k = uint64(r.Intn(4))
+		}
+		c1 := (ins[0].Body.Coins / 2 / 1000) * 1000
+		outs := []coin.TransactionOutput{
+			{Address: w.Addrs[1], Coins: c1, Hours: 1 << 63},
+			{Address: w.Addrs[2], Coins: ins[0].Body.Coins - c1, Hours: 1<<63 + k},
+		}
+		return w.BuildTxn([]cipher.SHA256{ins[0].Hash()}, outs, nk.TxOpts{}), "hard-outhours-overflow", true
 	case p < 38: // double spend of an input used by a pooled transaction
 		if len(pool) == 0 {
 			return mk("valid", nk.SpendOpts{})
@@ -352,6 +400,26 @@ func (h *hst) opInject(user bool) error {
 	if !ok {
 		return nil
 	}
+	return h.opInjectTxn(t, kind, user)
+}
+
+// opInjectHot submits a transaction spending the near-2^64-hours output with no
+// output hours: valid while the head is the block that created the output;
+// once a block moves the head time forward the input's coin hours overflow, a
+// hard violation under the single-transaction rules but not under the block rules.
+func (h *hst) opInjectHot(user bool) error {
+	t := h.w.Spend(coin.UxArray{*h.hot}, h.headTime(), nk.SpendOpts{Fee: "all", NOut: 1})
+	h.hold[t.Hash()] = true
+	return h.opInjectTxn(t, "hot-spend", user)
+}
+
+func (h *hst) noteDiff(where string, v nk.Verdict) {
+	if v.Hard != v.Block {
+		h.hist.Add("verdicts-differ(single-vs-block-rules):" + where)
+	}
+}
+
+func (h *hst) opInjectTxn(t coin.Transaction, kind string, user bool) error {
 	h.seen = append(h.seen, t)
 	vp := h.n.V.Config.UnconfirmedVerifyTxn
 	if user {
@@ -361,14 +429,15 @@ func (h *hst) opInject(user bool) error {
 	if err != nil {
 		return err
 	}
+	h.noteDiff("inject", v)
 	tc := h.txnCoq(t)
-	js := map[string]interface{}{"kind": kind, "txn": t.Hash().Hex()[:12], "raw": t.MustSerializeHex(),
+	js := map[string]interface{}{"kind": kind, "blk": v.Block, "txn": t.Hash().Hex()[:12], "raw": t.MustSerializeHex(),
 		"wf": v.Hard, "soft": v.Soft, "inputs_unspent": v.InputsUnspent, "hard_err": v.HardErr, "soft_err": v.SoftErr}
 	var opC, outC string
 	if user {
 		userOK := transaction.VerifySingleTxnUserConstraints(t) == nil
 		js["op"], js["user_ok"] = "InjectUser", userOK
-		opC = fmt.Sprintf("(InjectUser %s %s %s)", tc, B(userOK), verdictCoq(v.Hard, v.Soft, v.InputsUnspent))
+		opC = fmt.Sprintf("(InjectUser %s %s %s)", tc, B(userOK), verdictCoq(v))
 		var known bool
 		var ierr error
 		if Guard(func() { known, _, _, ierr = h.n.V.InjectUserTransaction(t) }) {
@@ -382,7 +451,7 @@ func (h *hst) opInject(user bool) error {
 		h.hist.Add("user:" + kind + ":" + outC)
 	} else {
 		js["op"] = "InjectForeign"
-		opC = fmt.Sprintf("(InjectForeign %s %s)", tc, verdictCoq(v.Hard, v.Soft, v.InputsUnspent))
+		opC = fmt.Sprintf("(InjectForeign %s %s)", tc, verdictCoq(v))
 		var known bool
 		var softErr *transaction.ErrTxnViolatesSoftConstraint
 		var ierr error
@@ -404,14 +473,15 @@ func (h *hst) opInject(user bool) error {
 	return h.record(opC, outC, js)
 }
 
-func (h *hst) verdictList() (string, error) {
+func (h *hst) verdictList(where string) (string, error) {
 	var it []string
 	for _, t := range h.poolTxns() {
 		v, err := h.w.Verify(h.n, t, h.n.V.Config.UnconfirmedVerifyTxn, true)
 		if err != nil {
 			return "", err
 		}
-		it = append(it, Tuple(nk.HashZ(t.Hash()), verdictCoq(v.Hard, v.Soft, v.InputsUnspent)))
+		h.noteDiff(where, v)
+		it = append(it, Tuple(nk.HashZ(t.Hash()), verdictCoq(v)))
 	}
 	return List(it), nil
 }
@@ -425,7 +495,7 @@ func hashesCoq(hs []cipher.SHA256) string {
 }
 
 func (h *hst) opRefresh() error {
-	vl, err := h.verdictList()
+	vl, err := h.verdictList("refresh")
 	if err != nil {
 		return err
 	}
@@ -443,7 +513,7 @@ func (h *hst) opRefresh() error {
 }
 
 func (h *hst) opRemoveInvalid() error {
-	vl, err := h.verdictList()
+	vl, err := h.verdictList("removeinvalid")
 	if err != nil {
 		return err
 	}
@@ -481,7 +551,8 @@ func (h *hst) execOn(sb coin.SignedBlock, kind string) error {
 		if err != nil {
 			return err
 		}
-		txs = append(txs, Tuple(h.txnCoq(t), verdictCoq(v.Block, v.Soft, v.InputsUnspent)))
+		h.noteDiff("block", v)
+		txs = append(txs, Tuple(h.txnCoq(t), verdictCoq(v)))
 	}
 	var xerr error
 	outC := ""
@@ -500,8 +571,28 @@ func (h *hst) execOn(sb coin.SignedBlock, kind string) error {
 		map[string]interface{}{"op": "ExecBlock", "kind": kind, "hdr_ok": hdrOK, "ntxns": len(sb.Body.Transactions), "time": sb.Head.Time})
 }
 
+// opHandmadeBlock executes a block made by hand around one transaction that
+// only the block rules accept (its input's coin hours overflow at the head):
+// the node must accept it, and the transaction leaves the pool. The publisher
+// (arbitrating) would drop such a transaction, so it stops following the chain.
+func (h *hst) opHandmadeBlock(t coin.Transaction) error {
+	hb, err := h.n.V.GetHeadBlock()
+	if err != nil {
+		return err
+	}
+	sb, err := h.w.MakeBlock(h.n, coin.Transactions{t}, hb.Time()+1+uint64(h.r.Intn(20)))
+	if err != nil {
+		return err
+	}
+	h.pubOut = true
+	return h.execOn(sb, "handmade-block-rules-only")
+}
+
 func (h *hst) opBlock() error {
 	r := h.r
+	if h.pubOut {
+		return nil
+	}
 	if len(h.blocks) > 0 && r.Chance(12) { // replay of a block the node already has
 		return h.execOn(h.blocks[r.Intn(len(h.blocks))], "replay")
 	}
@@ -509,7 +600,7 @@ func (h *hst) opBlock() error {
 	// fresh transactions the node has not seen
 	cands := []coin.Transaction{}
 	for _, t := range h.poolTxns() {
-		if r.Chance(55) {
+		if r.Chance(55) && !h.hold[t.Hash()] {
 			cands = append(cands, t)
 		}
 	}
@@ -563,9 +654,13 @@ func run(args []string) error {
 	var samples []map[string]interface{}
 	nOut := 120
 	for len(cases) < n {
-		h, err := newHistory(r, nOut, hist)
+		hot := len(cases)%3 == 1 && f.Extra != "nohot"
+		h, err := newHistory(r, nOut, hist, hot)
 		if err != nil {
 			return err
+		}
+		if hot {
+			hist.Add("history:with-near-2^64-hours-output")
 		}
 		var initU []string
 		uxs, _ := h.n.V.GetAllUnspentOutputs()
@@ -580,6 +675,13 @@ func run(args []string) error {
 		nOps := 20 + r.Intn(25)
 		for k := 0; k < nOps; k++ {
 			var err error
+			if hot && k == 0 {
+				if err = h.opInjectHot(r.Chance(30)); err != nil {
+					h.close()
+					return err
+				}
+				continue
+			}
 			switch p := r.Intn(100); {
 			case p < 42:
 				err = h.opInject(false)
@@ -595,6 +697,41 @@ func run(args []string) error {
 			if err != nil {
 				h.close()
 				return err
+			}
+		}
+		if hot {
+			// make sure the head moved past the hot output's creation and the passes ran after it
+			tail := []func() error{h.opBlock}
+			var pooledHot *coin.Transaction
+			if r.Bool() {
+				tail = append(tail, h.opRefresh)
+			}
+			if r.Chance(65) {
+				tail = append(tail, h.opRemoveInvalid)
+			}
+			for _, f := range tail {
+				if err := f(); err != nil {
+					h.close()
+					return err
+				}
+			}
+			// a block that only the block rules accept: around the pooled hot spend if it is
+			// still pooled, else around a fresh spend of the hot output
+			if _, err := h.n.V.GetUnspentOutputs([]cipher.SHA256{h.hot.Hash()}); err == nil && !h.pubOut && r.Chance(70) {
+				for _, t := range h.poolTxns() {
+					if h.hold[t.Hash()] {
+						tt := t
+						pooledHot = &tt
+					}
+				}
+				t := h.w.Spend(coin.UxArray{*h.hot}, h.headTime(), nk.SpendOpts{Fee: "all", NOut: 1})
+				if pooledHot != nil {
+					t = *pooledHot
+				}
+				if err := h.opHandmadeBlock(t); err != nil {
+					h.close()
+					return err
+				}
 			}
 		}
 		if !nk.DistinctPrefixes(h.allH) {
